@@ -203,6 +203,15 @@ def arange(ev, st, t, depth=0):
             if okk and h2 <= T.mask(t.w):
                 lo, hi = max(lo, l2), min(hi, h2)
             elif okk:
+                # c - x pattern: coefficient -1
+                items = dict(t.aux)
+                if len(items) == 2 and () in items:
+                    (mono, co), = [(m_, c_) for m_, c_ in items.items() if m_ != ()]
+                    if co == T.mask(t.w) and len(mono) == 1:
+                        a, b = arange(ev, st, T._ATOM[mono[0]], depth + 1)
+                        c = items[()]
+                        if b <= c:
+                            lo, hi = max(lo, c - b), min(hi, c - a)
                 # x - c pattern: c0 = 2^w - c and single atom with coefficient 1
                 items = dict(t.aux)
                 if len(items) == 2 and () in items:
@@ -257,6 +266,11 @@ def srange_of(ev, st, t):
     """signed interval [lo, hi] of a w-bit term"""
     w = t.w
     half = 1 << (w - 1)
+    ulo, uhi = arange(ev, st, t)
+    if uhi < half:
+        return ulo, uhi
+    if ulo >= half:
+        return ulo - (1 << w), uhi - (1 << w)
     flipped = T.xor(t, T.const(half, w))
     lo, hi = arange(ev, st, flipped)
     return lo - half, hi - half
@@ -299,6 +313,12 @@ def discharge(ev, st, cond, exp):
     if x.op == "and1" and not neg:
         if all(discharge(ev, st, y, T.TRUE)[0] for y in x.args):
             return True, "range"
+    if x.op == "eqz":
+        lo, hi = arange(ev, st, x.args[0])
+        if lo > 0:
+            return (neg is True), "range"  # never zero
+        if hi == 0:
+            return (neg is False), "range"
     return False, "open"
 
 
